@@ -148,7 +148,9 @@ func streamDict(s *Stream, encodedLen int) Dict {
 			d = append(d, KV{"DecodeParms", pa})
 		}
 	}
-	if s.LenMode == "indirect" {
+	if s.LenMode == "preset" {
+		// the caller put /Length into D itself
+	} else if s.LenMode == "indirect" {
 		d = append(d, KV{"Length", Ref{s.LenKey}})
 	} else {
 		d = append(d, KV{"Length", encodedLen})
